@@ -611,9 +611,9 @@ class client( object ):
                 else:
                     # Don't create parsing engine 'til we have some I/O to process.  This avoids the
                     # degenerate situation where empty I/O (EOF) always matches the empty command (used
-                    # to indicate the end of an EtherNet/IP session).
-                    if self.engine is None:
-                        return None
+                    # to indicate the end of an EtherNet/IP session).  Nor may a running engine be
+                    # re-entered without input; it awaits a symbol, and would detect no progress.
+                    return None
             finally:
                 if self.profiler:
                     self.profiler.enable()
